@@ -276,6 +276,15 @@ for _sc in ("assign", "list", "append", "call", "emptysec", "sec", "titled", "ne
     U("parse_script_" + _sc, entry="h_script_" + _sc, cbmc=unw(20) + NOOOM, defs={"quick": []},
       label="bounded(one concrete token script: undeclared item '%s' followed by i = 5; nested activations run for real)" % _sc, props=["C12", "C06", "C02"], cost=10, **PARSEC)
 
+# ------------------------------------------------------------------ S1: contracts enforced by DFCC (frames)
+# (contract::cfg_addval is written in the same header, but its DFCC run did not finish in 300 s in the build phase; cfg_addval is decided by the S2 units addval_n*)
+for _f, _e, _props in (("cfg_set_error_function", "h_dfcc_errfunc", ["C06", "C16", "C02"]),
+                       ("cfg_set_print_filter_func", "h_dfcc_pff", ["C19", "C16", "C02"]), ("cfg_opt_set_print_func", "h_dfcc_pf", ["C19", "C16", "C02"]),
+                       ("cfg_opt_size", "h_dfcc_size", ["C09", "C02"]), ("cfg_title", "h_dfcc_title", ["C09", "C02"]), ("cfg_opt_getnint", "h_dfcc_getnint", ["C09", "C02"])):
+    U("dfcc_" + _f, harness="harness/dfcc.c", entry=_e, func=_f, style="S1", defs={"quick": []}, cbmc=OOM, dfcc={"enforce": [_f]}, expect_canary=False, no_slice=False,
+      label="proof (contract in CBMC's contract language enforced by goto-instrument --dfcc, assigns clause = frame; <= 3 values where a slot array is involved)",
+      props=_props, cost=30)
+
 # ------------------------------------------------------------------ per-property text for MANIFEST / evidence
 HOOK_COMMITS = ["b37b503"]
 NOT_APPLICABLE = {}
